@@ -970,11 +970,17 @@ def inflight_cases(jobs):
             ns = {"LOG": log, "K2": K2, "K3": K3, "K4": K4, "recurse": recurse, "call_next": call_next, "STATE": state, "TARGET": K3(),
                   "__name__": "vfworld"}
             again = {"recurse": "recurse(TARGET)", "name": "f(TARGET)", "next": "call_next(x)"}[job["via"]]
+            typearg = bool(job.get("typearg"))
+            if typearg:
+                # the changing method is the function's first type[...] method and the recursion passes a class: from
+                # that change on, a class at this position is looked up as type[cls] (the same poset: type[K3] below type[K2])
+                ns["TARGET"] = K3
             src = (
                 "def f(x: K4):\n    LOG.append('fb')\n    if STATE['armed']:\n        STATE['armed'] = False\n"
                 "        STATE['change']()\n        LOG.append('>split')\n        return " + again + "\n    return 'fb'\n"
                 "def m1(x: object):\n    LOG.append('m1')\n    return 'm1'\n"
-                "def m2(x: K2):\n    LOG.append('m2')\n    return 'm2'\n"
+                + ("def m2(x: type[K2]):\n    LOG.append('m2')\n    return 'm2'\n" if typearg else
+                   "def m2(x: K2):\n    LOG.append('m2')\n    return 'm2'\n") +
                 "def mv(x: K3, y: object):\n    LOG.append('mv')\n    return 'mv'\n"
             )
             fname = f"<vf:inflight{job['id']}>"
